@@ -169,8 +169,33 @@ class SrcInfo:
                 selfty = h
             self.impls[(rel, line)] = (trait, selfty)
 
-    def impl_at(self, rel, line):
+    def derive_at(self, rel, line, col):
+        """(trait, type) for an impl generated by `#[derive(.., Trait, ..)]`: rustc names it by the position of the trait's
+        name inside the attribute"""
+        raw = self.files.get(rel)
+        if raw is None or col is None:
+            return None
+        lines = raw.split('\n')
+        if not (1 <= line <= len(lines)):
+            return None
+        text = lines[line - 1]
+        if '#[derive(' not in text and 'derive(' not in text:
+            return None
+        m = re.match(r'[A-Za-z_][A-Za-z0-9_:]*', text[col - 1:])
+        if not m:
+            return None
+        trait = m.group(0)
+        for k in range(line, min(line + 12, len(lines))):
+            tm = re.match(r'\s*(?:pub(?:\([a-z]+\))?\s+)?(?:struct|enum)\s+([A-Za-z_][A-Za-z0-9_]*)', lines[k])
+            if tm:
+                return (trait, tm.group(1))
+        return None
+
+    def impl_at(self, rel, line, col=None):
         """impl header for `<impl at rel:line:..>`; attribute lines (#[async_trait]) may precede"""
+        d0 = self.derive_at(rel, line, col)
+        if d0 is not None:
+            return d0
         for d in (0, 1, 2, 3, -1):
             r = self.impls.get((rel, line + d))
             if r:
